@@ -4,7 +4,7 @@
    ([p_run_inserts]). *)
 From Coq Require Import NArith List Bool Lia PeanoNat Sorted.
 From FV Require Import Rb.RbModel Rb.RbInorder Rb.RbInvariant Rb.RbLayout Rb.RbHistory Rb.RbPtr Rb.RbPtrBase
-  Rb.RbPtrRefineRot Rb.RbPtrRefineInsert Rb.RbPtrRefineTop.
+  Rb.RbPtrRefineRot Rb.RbPtrRefineInsert Rb.RbPtrRefineTop Rb.RbAnnot Rb.RbPtrAnnot.
 Import ListNotations.
 
 Lemma walk_succ_ext f g fuel cur : (forall j, h_succ (g j) = h_succ (f j)) -> walk_succ g fuel cur = walk_succ f fuel cur.
@@ -222,4 +222,128 @@ Section Hist.
       - apply (IH _ (list_step id_of less l o)); auto. apply step_refines; assumption.
     Qed.
   End Order.
+
+  (* ---- the same INCLUDING the annotation heap (aggregators with [agg_ok]) *)
+  Notation repr_a := (repr_a elt annot id_of).
+  Theorem p_run_refines_a (ops : list (op elt)) : forall (t : tree) (s : pstate) ek fuel,
+    agg_ok agg aeqb -> ann_ok agg t ->
+    tops_ok t ops -> rb t -> NoDup (ids t) -> keys_ok elt annot id_of ek t -> repr_a s t ->
+    2 * Nat.log2 (length ops + size t + 1) + 2 < fuel ->
+    let t' := fold_left (rb_step id_of less agg) ops t in
+    exists s' ek', p_run fuel ops s ek = POk (s', ek')
+                   /\ repr_a s' t' /\ ann_ok agg t' /\ rb t' /\ NoDup (ids t') /\ keys_ok elt annot id_of ek' t'.
+  Proof.
+    induction ops as [|o ops IH]; intros t s ek fuel Ao Oa Hok Hrb Nd Hk H Hf; unfold p_run; cbn [fold_left].
+    - exists s, ek. auto 7.
+    - cbn [tops_ok] in Hok. destruct Hok as [Ho Hok]. cbn [length] in Hf.
+      pose proof (rb_height elt annot t Hrb) as Hh.
+      assert (Hlog : Nat.log2 (size t + 1) <= Nat.log2 (S (length ops) + size t + 1)) by (apply Nat.log2_le_mono; lia).
+      destruct o as [x|i]; cbn [p_step rb_step] in *.
+      + assert (Hk' : keys_ok elt annot id_of (set_key elt id_of ek x) t).
+        { intros y Hy. unfold set_key. destruct (N.eqb_spec (id_of y) (id_of x)) as [E0|_]; [|apply Hk, Hy].
+          exfalso. apply Ho. rewrite <- E0. apply in_map, Hy. }
+        assert (Hx' : set_key elt id_of ek x (id_of x) = x) by (unfold set_key; rewrite N.eqb_refl; reflexivity).
+        destruct (p_insert_refines_a elt annot id_of less agg aeqb (set_key elt id_of ek x) x t s fuel) as (s1 & E1 & R1 & N1);
+          try assumption; [constructor; assumption|lia|].
+        rewrite E1.
+        pose proof (size_insert x t Nd Ho N1) as Hsz.
+        destruct (IH (insert less agg x t) s1 (set_key elt id_of ek x) fuel) as (s' & ek' & E' & R');
+          [exact Ao|apply (insert_ann elt annot id_of less agg), Oa|exact Hok|apply insert_rb, Hrb|exact N1| |exact R1| |].
+        * intros y Hy. apply (insert_elems elt annot id_of less agg) in Hy. destruct Hy as [->|Hy]; [exact Hx'|apply Hk', Hy].
+        * rewrite Hsz. replace (length ops + S (size t) + 1) with (S (length ops) + size t + 1) by lia. exact Hf.
+        * exists s', ek'. unfold p_run in E'. auto.
+      + destruct (p_remove_refines_a elt annot id_of less agg aeqb ek i t s fuel Ao Oa Hk Nd Hrb Ho H) as (s1 & E1 & R1 & N1); [lia|].
+        rewrite E1.
+        pose proof (size_remove elt annot id_of agg i t Nd) as Hsz.
+        destruct (IH (remove id_of agg i t) s1 ek fuel) as (s' & ek' & E' & R');
+          [exact Ao|apply (remove_ann elt annot id_of less agg), Oa|exact Hok|apply remove_rb, Hrb|exact N1| |exact R1| |].
+        * intros y Hy. apply Hk. rewrite (inorder_remove elt annot id_of agg i t Nd) in Hy. apply filter_In in Hy. tauto.
+        * assert (Nat.log2 (length ops + size (remove id_of agg i t) + 1) <= Nat.log2 (S (length ops) + size t + 1))
+            by (apply Nat.log2_le_mono; lia). lia.
+        * exists s', ek'. unfold p_run in E'. auto.
+  Qed.
+
+  (* ---- frg::rbtree_order: histories of insert(before, x) / remove on the pointer level *)
+  Definition p_ostep (fuel : nat) (st : pres (pstate * (N -> elt))) (o : oop elt) : pres (pstate * (N -> elt)) :=
+    match st with
+    | POk (s, ek) =>
+        match o with
+        | OInsBefore b x =>
+            let ek' := set_key elt id_of ek x in
+            match p_insert_before agg aeqb ek' fuel s b (id_of x) with
+            | POk s' => POk (s', ek')
+            | PAssert l => PAssert l | PUB l => PUB l | POutOfFuel => POutOfFuel
+            end
+        | OORem i =>
+            match p_remove agg aeqb ek fuel s i with
+            | POk s' => POk (s', ek)
+            | PAssert l => PAssert l | PUB l => PUB l | POutOfFuel => POutOfFuel
+            end
+        end
+    | PAssert l => PAssert l | PUB l => PUB l | POutOfFuel => POutOfFuel
+    end.
+  Definition p_orun (fuel : nat) (ops : list (oop elt)) (s0 : pstate) (ek0 : N -> elt) : pres (pstate * (N -> elt)) :=
+    fold_left (p_ostep fuel) ops (POk (s0, ek0)).
+
+  Fixpoint toops_ok (t : tree) (ops : list (oop elt)) : Prop :=
+    match ops with
+    | [] => True
+    | o :: rest =>
+        match o with
+        | OInsBefore b x => ~ In (id_of x) (ids t) /\ match b with Some b => In b (ids t) | None => True end
+        | OORem i => In i (ids t)
+        end /\ toops_ok (rbo_step id_of agg t o) rest
+    end.
+
+  Lemma ids_insert_before b x (t : tree) : NoDup (ids t) -> match b with Some b => In b (ids t) | None => True end ->
+    length (inorder (insert_before id_of agg b x t)) = S (length (inorder t)).
+  Proof.
+    intros Nd Hb. destruct b as [b|].
+    - apply in_map_iff in Hb. destruct Hb as (y & <- & Hy). apply in_split in Hy. destruct Hy as (l1 & l2 & E0).
+      rewrite (inorder_insert_before_some elt annot id_of agg x t l1 y l2 Nd E0), E0, !app_length. cbn [length]. lia.
+    - rewrite (inorder_insert_before_none elt annot id_of agg x t), app_length. cbn [length]. lia.
+  Qed.
+
+  Theorem p_orun_refines (ops : list (oop elt)) : forall (t : tree) (s : pstate) ek fuel,
+    toops_ok t ops -> rb t -> NoDup (ids t) -> repr s t ->
+    2 * Nat.log2 (length ops + size t + 1) + 2 < fuel ->
+    let t' := fold_left (rbo_step id_of agg) ops t in
+    exists s' ek', p_orun fuel ops s ek = POk (s', ek') /\ repr s' t' /\ rb t' /\ NoDup (ids t').
+  Proof.
+    induction ops as [|o ops IH]; intros t s ek fuel Hok Hrb Nd H Hf; unfold p_orun; cbn [fold_left].
+    - exists s, ek. auto.
+    - cbn [toops_ok] in Hok. destruct Hok as [Ho Hok]. cbn [length] in Hf.
+      pose proof (rb_height elt annot t Hrb) as Hh.
+      assert (Hlog : Nat.log2 (size t + 1) <= Nat.log2 (S (length ops) + size t + 1)) by (apply Nat.log2_le_mono; lia).
+      destruct o as [b x|i]; cbn [p_ostep rbo_step] in *.
+      + destruct Ho as [Hx Hb].
+        destruct (p_insert_before_refines elt annot id_of less agg aeqb (set_key elt id_of ek x) b x t s fuel) as (s1 & E1 & R1 & N1 & _);
+          try assumption; [constructor; assumption|intros b0 ->; exact Hb|lia|].
+        rewrite E1.
+        assert (Hsz : size (insert_before id_of agg b x t) = S (size t)).
+        { rewrite !(size_length elt annot). apply ids_insert_before; assumption. }
+        destruct (IH (insert_before id_of agg b x t) s1 (set_key elt id_of ek x) fuel) as (s' & ek' & E' & R');
+          [exact Hok|apply insert_before_rb, Hrb|exact N1|exact R1| |].
+        * rewrite Hsz. replace (length ops + S (size t) + 1) with (S (length ops) + size t + 1) by lia. exact Hf.
+        * exists s', ek'. unfold p_orun in E'. auto.
+      + destruct (p_remove_refines elt annot id_of agg aeqb ek i t s fuel Nd Hrb Ho H) as (s1 & E1 & R1 & N1); [lia|].
+        rewrite E1.
+        pose proof (size_remove elt annot id_of agg i t Nd) as Hsz.
+        destruct (IH (remove id_of agg i t) s1 ek fuel) as (s' & ek' & E' & R');
+          [exact Hok|apply remove_rb, Hrb|exact N1|exact R1| |].
+        * assert (Nat.log2 (length ops + size (remove id_of agg i t) + 1) <= Nat.log2 (S (length ops) + size t + 1))
+            by (apply Nat.log2_le_mono; lia). lia.
+        * exists s', ek'. unfold p_orun in E'. auto.
+  Qed.
+
+  (* the documented precondition of C06_order_history gives [toops_ok] *)
+  Lemma oops_ok_toops ops : forall (t : tree) l,
+    inorder t = l -> NoDup (RbInorder.ids id_of l) -> oops_ok id_of l ops -> toops_ok t ops.
+  Proof.
+    induction ops as [|o ops IH]; intros t l Ht Hn Hok; cbn [toops_ok oops_ok] in *; [exact I|].
+    destruct Hok as [Ho Hok]. subst l. split; [destruct o as [[b|] x|i]; exact Ho|].
+    pose proof (order_history_refines elt annot id_of agg [o] t (inorder t) eq_refl Hn) as R. cbn [fold_left oops_ok] in R.
+    destruct (R (conj Ho I)) as [R1 R2].
+    apply (IH _ (olist_step id_of (inorder t) o)); [exact R1|exact R2|exact Hok].
+  Qed.
 End Hist.
